@@ -153,7 +153,9 @@ NestedFam == {VObj(<< <<KA, x>>, <<KB, N2>> >>) : x \in ObjsOver({N1}, {KA, KB, 
              \cup {VObj(<< <<KB, VObj(<< <<KA, x>> >>)>> >>) : x \in ObjsOver({N1}, {KB, KA}, 2, TRUE) \cup {VObj(<< <<KTI, N1>>, <<KB, N2>>, <<KA, N1>> >>)}}
 \* member names that still look like an escape after one decoding ("~1" next to "/", "~0" next to "~")
 TildeDocs == ObjsOver({N1, N2}, {KT1, <<47>>}, 2, TRUE) \cup {VObj(<< <<<<126, 48>>, x>>, <<<<126>>, N1>> >>) : x \in {N1, N2}} \cup {VObj(<< <<KA, VObj(<< <<KT1, x>>, <<<<47>>, N2>> >>)>> >>) : x \in {N1, N2}}
-PairUniverse == NumDocs \cup HiDocs \cup PairUniverse0 \cup LongDocs \cup NestedFam \cup TildeDocs
+\* member names that differ in case only, three levels down (what a generator does below its first recursion)
+Case3 == {VObj(<< <<KB, VObj(<< <<KA, x>> >>)>> >>) : x \in ObjsOver({N1, N2}, {KA, KAA}, 1, TRUE) \cup {VObj(<< <<KA, N1>>, <<KAA, N2>> >>)}}
+PairUniverse == NumDocs \cup HiDocs \cup PairUniverse0 \cup LongDocs \cup NestedFam \cup TildeDocs \cup Case3
 
 Init == /\ phase = 0 /\ b = VNull
         /\ a \in (IF Mode = "apply" THEN DocsApply \cup (IF Tier = "quick" THEN {} ELSE Doc1 \cup BigDocsApply) ELSE IF Mode = "merge" THEN MergeUniverse ELSE PairUniverse)
